@@ -25,7 +25,9 @@ import (
 	"strings"
 
 	"github.com/polynetwork/poly/common"
+	"github.com/polynetwork/poly/common/config"
 	"github.com/polynetwork/poly/consensus/vbft"
+	"github.com/polynetwork/poly/core/types"
 	_ "github.com/polynetwork/poly/native/service"
 	"github.com/polynetwork/poly/native/service/governance/node_manager"
 	"github.com/polynetwork/poly/native/service/utils"
@@ -139,6 +141,16 @@ func eval(e ast.Expr, N int64) (int64, error) {
 		if isIdent(x.Fun, "len") {
 			return N, nil
 		}
+		// a call of a helper defined in the same file with one integer parameter: f(n) { a := ..; return expr }
+		if id, ok := x.Fun.(*ast.Ident); ok && len(x.Args) == 1 {
+			if fd, ok := fileFuncs[id.Name]; ok && fd.Type.Params != nil && len(fd.Type.Params.List) == 1 && len(fd.Type.Params.List[0].Names) == 1 {
+				arg, err := eval(x.Args[0], N)
+				if err != nil {
+					return 0, err
+				}
+				return evalFunc(fd, arg)
+			}
+		}
 		return 0, fmt.Errorf("call")
 	case *ast.BinaryExpr:
 		a, err := eval(x.X, N)
@@ -164,6 +176,92 @@ func eval(e ast.Expr, N int64) (int64, error) {
 		}
 	}
 	return 0, fmt.Errorf("unsupported expression %T", e)
+}
+
+// fileFuncs: the function declarations of the file being analysed (for inlining quorum helpers).
+var fileFuncs map[string]*ast.FuncDecl
+
+// evalFunc evaluates a straight-line integer helper: assignments of integer expressions followed by a return.
+func evalFunc(fd *ast.FuncDecl, arg int64) (int64, error) {
+	saved := defs
+	defer func() { defs = saved }()
+	env := map[string]int64{fd.Type.Params.List[0].Names[0].Name: arg}
+	for _, st := range fd.Body.List {
+		switch t := st.(type) {
+		case *ast.AssignStmt:
+			if len(t.Lhs) != 1 || len(t.Rhs) != 1 {
+				return 0, fmt.Errorf("helper %s: unsupported assignment", fd.Name.Name)
+			}
+			id, ok := t.Lhs[0].(*ast.Ident)
+			if !ok {
+				return 0, fmt.Errorf("helper %s: unsupported assignment", fd.Name.Name)
+			}
+			v, err := evalEnv(t.Rhs[0], env)
+			if err != nil {
+				return 0, err
+			}
+			env[id.Name] = v
+		case *ast.ReturnStmt:
+			if len(t.Results) != 1 {
+				return 0, fmt.Errorf("helper %s: unsupported return", fd.Name.Name)
+			}
+			return evalEnv(t.Results[0], env)
+		default:
+			return 0, fmt.Errorf("helper %s: unsupported statement %T", fd.Name.Name, st)
+		}
+	}
+	return 0, fmt.Errorf("helper %s: no return", fd.Name.Name)
+}
+
+func evalEnv(e ast.Expr, env map[string]int64) (int64, error) {
+	switch x := e.(type) {
+	case *ast.ParenExpr:
+		return evalEnv(x.X, env)
+	case *ast.BasicLit:
+		return strconv.ParseInt(x.Value, 0, 64)
+	case *ast.Ident:
+		if v, ok := env[x.Name]; ok {
+			return v, nil
+		}
+		return 0, fmt.Errorf("unknown identifier %s in helper", x.Name)
+	case *ast.CallExpr:
+		if id, ok := x.Fun.(*ast.Ident); ok && len(x.Args) == 1 {
+			if id.Name == "int" || id.Name == "uint32" || id.Name == "uint64" || id.Name == "int64" || id.Name == "uint" {
+				return evalEnv(x.Args[0], env)
+			}
+			if fd, ok := fileFuncs[id.Name]; ok {
+				a, err := evalEnv(x.Args[0], env)
+				if err != nil {
+					return 0, err
+				}
+				return evalFunc(fd, a)
+			}
+		}
+		return 0, fmt.Errorf("unsupported call in helper")
+	case *ast.BinaryExpr:
+		a, err := evalEnv(x.X, env)
+		if err != nil {
+			return 0, err
+		}
+		b, err := evalEnv(x.Y, env)
+		if err != nil {
+			return 0, err
+		}
+		switch x.Op {
+		case token.ADD:
+			return a + b, nil
+		case token.SUB:
+			return a - b, nil
+		case token.MUL:
+			return a * b, nil
+		case token.QUO:
+			if b == 0 {
+				return 0, fmt.Errorf("div0")
+			}
+			return a / b, nil
+		}
+	}
+	return 0, fmt.Errorf("unsupported expression %T in helper", e)
 }
 
 func exprString(e ast.Expr) string {
@@ -197,6 +295,12 @@ func main() {
 			r.HarnessError("parse %s: %v", s.file, err)
 		}
 		var exprs []ast.Expr
+		fileFuncs = map[string]*ast.FuncDecl{}
+		for _, d := range f.Decls {
+			if fd, ok := d.(*ast.FuncDecl); ok && fd.Recv == nil && fd.Body != nil {
+				fileFuncs[fd.Name.Name] = fd
+			}
+		}
 		for _, d := range f.Decls {
 			if fd, ok := d.(*ast.FuncDecl); ok && fd.Name.Name == s.fn && fd.Body != nil {
 				exprs = s.find(fd.Body)
@@ -404,6 +508,25 @@ func main() {
 			r.Violation("threshold-measured:node_manager.CheckConsensusSigns", map[string]any{"N": N, "approvals_needed_measured": need, "formula_ceil(2N/3)": want})
 		}
 	}
+	// ---- dynamic cross-check 3: real ledger verifyHeader (block path), all three rules --------------
+	for N := 1; N <= r.QT(8, 10); N++ {
+		for _, mode := range []string{"vbft-legacy", "vbft-new", "dbft"} {
+			need := measureLedger(r, N, mode)
+			dyn++
+			var want int
+			switch mode {
+			case "vbft-legacy":
+				want = N - 6*N/7
+			default:
+				want = N - (N-1)/3
+			}
+			r.Case(fmt.Sprintf("ledger %s N=%d need=%d", mode, N, need))
+			if need != want {
+				r.Violation("threshold-measured:ledger.verifyHeader."+mode, map[string]any{"N": N, "rule": mode,
+					"signatures_needed_measured": need, "formula": want})
+			}
+		}
+	}
 	r.Class("dynamic_measured")
 	r.Require("threshold_evaluated", "tlc_ran", "dynamic_measured")
 	r.Sample(map[string]any{"CodeTable": ct})
@@ -422,6 +545,51 @@ func main() {
 		"apalache_all_n_ok":             apaOK,
 		"checker_cmd":                   "tlc -config quorum.cfg quorum.tla ; apalache-mc check --length=0 --inv=Inv quorumA.tla",
 	})
+}
+
+// measureLedger returns the least number k of distinct validator signatures with which the real ledger commits
+// block 1 (AddBlock -> verifyHeader), for N validators under the given rule; -1 if none is accepted.
+func measureLedger(r *ev.Run, N int, mode string) int {
+	vals := polyenv.Keys(N)
+	net := uint32(0)
+	if mode == "vbft-new" {
+		net = config.NETWORK_ID_MAIN_NET
+	}
+	polyenv.Setup(net, vals)
+	if mode == "dbft" {
+		config.DefConfig.Genesis.ConsensusType = "dbft"
+		defer func() { config.DefConfig.Genesis.ConsensusType = config.CONSENSUS_TYPE_VBFT }()
+	}
+	for k := 0; k <= N; k++ {
+		r.Eval()
+		dir := polyenv.TmpDir("c42l")
+		ch, err := polyenv.OpenChain(dir, vals)
+		if err != nil {
+			os.RemoveAll(dir)
+			r.HarnessError("open chain N=%d %s: %v", N, mode, err)
+		}
+		if mode == "vbft-new" {
+			last := &types.Header{Version: types.CURR_HEADER_VERSION, ChainID: polyenv.ChainID(), Height: 20000005,
+				Timestamp: ch.Genesis.Header.Timestamp + 1000000, ConsensusData: 1, ConsensusPayload: polyenv.VbftPayload(0, nil)}
+			ch.L.VerifC14SetHeaderTip(20000005, last, false, 16)
+		}
+		var b *types.Block
+		if mode == "dbft" {
+			// every bookkeeper is listed (the address must match NextBookkeeper); only the first k sign
+			b = ch.NextBlock(nil, vals)
+			b.Header.SigData = b.Header.SigData[:k]
+		} else {
+			b = ch.NextBlock(nil, vals[:k])
+		}
+		err = ch.CommitSync(b)
+		ok := err == nil && ch.L.GetCurrentBlockHeight() == 1
+		ch.Close()
+		os.RemoveAll(dir)
+		if ok {
+			return k
+		}
+	}
+	return -1
 }
 
 func tail(s string, n int) string {
